@@ -88,8 +88,29 @@ def _one(args):
     return dist, n, errors, dens, pg, ppdf
 
 
+def to_place(parent_spec, outcome_spec, new_idx):
+    """Name the placement an outcome realises, relative to the parent's top-level clones in canonical order."""
+    from ..trees import spec_nodes
+
+    roots = () if parent_spec is None else parent_spec[0]
+    if new_idx in outcome_spec[1]:
+        return "Outlier"
+    node = [n for n in spec_nodes(outcome_spec) if new_idx in n[0]][0]
+    own = tuple(x for x in node[0] if x != new_idx)
+    if own:
+        return "(Existing %d)" % [i for i, r in enumerate(roots) if r[0] == own][0]
+    kids = sorted(i for i, r in enumerate(roots) if any(k[0] == r[0] for k in node[1]))
+    return "(NewOver [%s])" % "; ".join(str(i) for i in kids)
+
+
+def qlit(x):
+    fr = Fraction(x)
+    return "(%d#%d)%%Q" % (fr.numerator, fr.denominator)
+
+
 def run(ctx):
     coq.check_property_file(ctx)
+    items = []
     ctx.rule = (
         "every parent state (none, outliers only, every tree over <= n-1 data points with every outlier subset) x next data point x "
         "proposal kind x outlier proposal prob {0, 0.1} x with/without permutation density x alpha: exact outcome distribution of "
@@ -98,7 +119,7 @@ def run(ctx):
         "has positive mass, log_w = target ratio (+ permutation density ratio) - log_q; non-trivial = parent with >= 1 clone or outliers"
     )
     ctx.exhaustive = True
-    nmax = 3 if ctx.quick else 4
+    nmax = 4 if ctx.quick else 5
     jobs = []
     vals_by_n = {n: rational_values(ctx.rng, n, 1, 3) for n in range(1, nmax + 1)}
     for n in range(1, nmax + 1):
@@ -139,6 +160,18 @@ def run(ctx):
             e["p"] += p
             e["lq"].add(lq)
             e["lw"].add(lw)
+        # correspondence item: the Coq model of this proposal on the same parent state
+        try:
+            R = 0 if parent is None else len(parent[0])
+            on = "true" if prop_op > 0 else "false"
+            obs = "; ".join("(%s, %s, %s)" % (to_place(parent, sp, len(values) - 1), qlit(e["p"]), qlit(math.exp(max(e["lq"])))) for sp, e in sorted(sampled.items()))
+            if kind == "bootstrap":
+                items.append("chk_boot %s %s %d %s [%s]" % (qlit(Fraction(prop_op).limit_denominator(1000)), "true" if parent is None else "false", R, on, obs))
+            else:
+                g = "; ".join("(%s, %s)" % (to_place(parent, sp, len(values) - 1), qlit(math.exp(v[1]))) for sp, v in sorted(dens.items()))
+                items.append("chk_%s [%s] %d %s [%s]" % ("full" if kind == "fully-adapted" else "semi", g, R, on, obs))
+        except Exception as e:  # an outcome that is not a placement is reported below as 'stray'
+            ctx.count("corr_skipped")
         # (0) the reported density is a function of the tree
         for spec, e in sampled.items():
             if len(e["lq"]) > 1 and max(e["lq"]) - min(e["lq"]) > 1e-9:
@@ -166,4 +199,12 @@ def run(ctx):
             expect = lg - pg + (lpdf - ppdf) - lq
             if abs(lw - expect) > 1e-8 or len(e["lw"]) > 1 and max(e["lw"]) - min(e["lw"]) > 1e-8:
                 ctx.fail("C08:%s:weight" % tag, "log_w %.10f but target ratio - log_q = %.10f" % (lw, expect), dict(replay, outcome=spec))
+    ok, bad, detail = coq.coq_eval_bool_cases(ctx, "corr", "From PV Require Import Model.ProposalsCases.\nOpen Scope nat_scope.", items, shard=40)
+    ctx.extra["coq_corr_cases"] = len(items)
+    if not ok:
+        ctx.broken_tie("C08 correspondence file did not evaluate", detail)
+    else:
+        ctx.obligation("corr_model_eq_impl_%d_proposal_states" % len(items), not bad)
+        if bad:
+            ctx.broken[-1]["detail"] = {"failing": len(bad), "first_item": items[bad[0]][:600]}
     ctx.assumptions += ["enumerating generator = numpy's laws; `choice(a, k, replace=False)` enumerated as ordered samples"]
